@@ -416,6 +416,21 @@ func runC14(w *eng.W) {
 		w.Sample("spacing-formulas", c)
 		c14Space.Do(w, c)
 	}
+	// word boundaries: every keyword (and look-alikes) continued by identifier-part characters of every
+	// class, by characters that end a word, and by bytes that are no character at all
+	conts := []string{"", "x", "1", "$", "_", "é", "中", "\u0301", "\u200c", "\u0660", " ", "\u00a0", ".", "(", "\x00", "\xff", "\u2028", "!"}
+	for _, word := range []string{"null", "true", "false", "this", "ctx", "typeof", "a", "$x", "nul", "Null", "typeo"} {
+		if !w.Take() {
+			continue
+		}
+		for _, c1 := range conts {
+			for _, c2 := range conts {
+				for _, ctx := range []string{"%s", "%s + 1", "a.%s", "typeof %s", "[%s, %s]"} {
+					do("word-boundaries", []byte(strings.Replace(ctx, "%s", word+c1+c2, -1)))
+				}
+			}
+		}
+	}
 	// scanner differential on glued lexemes (no separator at all) and on raw bytes
 	for l := 1; l <= 3; l++ {
 		seqsSharded(w, len(SigmaFull), l, func(idx []int) {
